@@ -37,7 +37,7 @@ impl<'a, T> Iterator for AxisIter<'a, T> {
     }
 
     fn size_hint(&self) -> (usize, Option<usize>) {
-        let n = self.array.shape[self.axis.0];
+        let n = self.array.shape[self.axis.0] - self.index;
         (n, Some(n))
     }
 }
